@@ -1,4 +1,10 @@
 TEXT = {
+ "C19": {
+  "text": "Translation validation (weakest property for this technique). For every generated command line the bytes the real binary writes with -o are compared with the Lean model's rendering of the Lean model's range result (Params::new(method) wiring, location from the four validated values, date defaults, serde's map/Result/NaiveTime rendering) - so the CLI output is tied to the same model the other nineteen properties are proved about. Theorems (every scalar type): the wiring, the date defaults, a location exists iff all four values pass their range check and then holds exactly them, the tool computes one entry per date of the range each equal to the single-date result. The falsifier decodes the file with the real serde decoder against the library API, checks -p/-i byte-identity incl. reused paths, the terminal listing, and non-zero exit just outside each range.",
+  "design_ref": "DESIGN.md §7 C19",
+  "note": "clap, serde_json, chrono's formatting and the file system are exercised, not modelled in depth; 'today' defaults are not exercised (dates are always passed).",
+  "technique": "translation validation of the real binary's output against the Lean model's rendering + Lean wiring theorems + falsifier on the real binary",
+ },
  "C18": {
   "text": "Bit-level theorems over all 2^64 binary64 patterns: the exact magnitude is strictly increasing in the magnitude bits, so the sign-magnitude key orders exact values; the shared range check accepts exactly the finite patterns whose exact value lies in [lo,hi] (both bounds included, lo/hi the documented numbers: boundBits_values proves their exact values), rejects every NaN and both infinities, and stores the pattern unchanged; all six types route JSON through try_from (attribute re-read from the source) so the JSON number route equals the number route. The comparison order, the twelve bound patterns and a correctly rounded decimal->binary64 model (text and JSON grammars) are compared with Rust (<=, <, ==, str::parse, serde_json) on large streams; the falsifier checks the three routes and composite documents.",
   "design_ref": "DESIGN.md §7 C18",
